@@ -25,6 +25,8 @@ type boundedResult struct {
 	Pkg    string `json:"package"`
 	Bound  string `json:"bound"`
 	Cases  int    `json:"cases_enumerated"`
+	Nontrivial int      `json:"nontrivial_cases"`
+	Samples    []string `json:"samples,omitempty"`
 	Pass   bool   `json:"pass"`
 	Output string `json:"-"`
 	File   string `json:"file"`
@@ -66,6 +68,12 @@ func runBounded(repo, verif, prop string) []boundedResult {
 		res.Output = string(b)
 		if cm := regexp.MustCompile(`BOUNDED-CASES (\d+)`).FindStringSubmatch(res.Output); cm != nil {
 			res.Cases, _ = strconv.Atoi(cm[1])
+		}
+		if nm := regexp.MustCompile(`BOUNDED-NONTRIVIAL (\d+)`).FindStringSubmatch(res.Output); nm != nil {
+			res.Nontrivial, _ = strconv.Atoi(nm[1])
+		}
+		for _, sm := range regexp.MustCompile(`(?m)^BOUNDED-SAMPLE (.*)$`).FindAllStringSubmatch(res.Output, 8) {
+			res.Samples = append(res.Samples, sm[1])
 		}
 		res.Pass = err == nil && res.Cases > 0
 		out = append(out, res)
